@@ -193,6 +193,9 @@ func c11Cases(blocks []c11Block, maxBlocks int, thorough bool, visit func(c c11C
 		if len(seq) >= 3 {
 			regs = []string{"foo", `a\"@rx b`}
 		}
+		if len(seq) >= 4 {
+			regs = []string{"foo"}
+		}
 		var targets []string
 		for id := range ids {
 			targets = append(targets, id)
@@ -200,7 +203,7 @@ func c11Cases(blocks []c11Block, maxBlocks int, thorough bool, visit func(c c11C
 		sort.Strings(targets)
 		for _, crlf := range []bool{false, true} {
 			for _, fnl := range []bool{true, false} {
-				if len(seq) >= 3 && (crlf != !fnl) {
+				if len(seq) >= 3 && (crlf != !fnl) || len(seq) >= 4 && crlf {
 					continue
 				}
 				for _, t := range targets {
@@ -230,7 +233,7 @@ func C11(r *core.Run) {
 		Cases, Updated, NoTarget int
 		Fails                    []c11Fail
 	}
-	spec := in{dir, r.Pick(2, 3), r.Thorough()}
+	spec := in{dir, r.Pick(2, 4), r.Thorough()}
 	eval := func(path string, blocks []c11Block, c c11Case, o *out) {
 		x, s, e := c.render(blocks)
 		if s == -2 {
@@ -489,7 +492,7 @@ func C11(r *core.Run) {
 	r.Cov["traces_validated_against_impl"] = validated + offRuns
 	r.Cov["offset_spelling_runs_cli"] = offRuns
 	r.Cov["exhaustive"] = len(deaths) == 0
-	r.Cov["bound"] = map[string]any{"block_kinds": len(blocks), "max_blocks": spec.Max, "regexes": c11Regexes, "offsets": "0..3", "variants": "LF/CRLF x final newline"}
+	r.Cov["bound"] = map[string]any{"block_kinds": len(blocks), "max_blocks": spec.Max, "regexes": c11Regexes, "offsets": "0..3", "variants": "LF/CRLF x final newline (files of 3 blocks: two of the four variants and two regexes; files of 4 blocks: LF with final newline, one regex)"}
 	r.Cov["rule"] = "all rules files of <= n blocks over the block kinds (comments incl. ones mentioning id:R, blanks, rules with @rx/!@rx/@pm for ids R, R+1 and a 7-digit id having R as prefix, operands containing \"@rx and \" \\, chains of 1-3 links) x line endings x final newline x every target id (+ an absent one) x offsets 0..3 x new regexes; executed on the real updateRegex (in-process); the generator knows the byte span of every operand, so the expected file is the original with exactly that span replaced, or failure with the file untouched; non-trivial = cases with a target"
 	r.Cov["samples"] = []any{c11Case{[]int{1, 4}, true, false, c11R, 0, `a\"@rx b`}, c11Case{[]int{26, 10}, false, true, c11R, 2, "foo"}}
 	r.Assume = append(r.Assume, "files in which the same rule id occurs twice are outside the model")
